@@ -137,6 +137,8 @@ def candidates(rng, t, opts, st, depth):
             A((1, ['scan', 'acc_nested_mut', 'nested', mut_red(), None]))
             A((0.7, ['scan', 'acc_box_mut', 'box', mut_red(), None]))
             A((0.7, ['scan', 'acc_tbox_mut', 'tbox', mut_red(), None]))
+            A((0.7, ['scan', 'acc_ndict_mut', 'ndict', mut_red(), None]))
+            A((0.7, ['scan', 'acc_nlist_mut', 'nlist', mut_red(), None]))
         A((1, ['scan', 'acc_digest', 'zero', red(), None]))
         if t == 'i':
             A((0.8, ['scan', 'acc_npvec', 'npvec', red(), None]))
@@ -151,6 +153,7 @@ def candidates(rng, t, opts, st, depth):
         if t == 'i':
             A((1, ['duc', 'mod:%d' % _k(rng)]))
             A((0.7, ['duc', 'modnp:%d' % _k(rng)]))
+            A((0.7, ['duc', 'kapprox']))
         A((1, ['assert_1', 'true2']))
         if opts.allow_progress:
             A((1, ['progress', rng.randint(1, 3), rng.random() < 0.3]))
